@@ -1543,7 +1543,7 @@ func Run(c *Case) (w *World) {
 					break
 				}
 			}
-			if c.Recurse && (s.K == KMkdir || s.K == KRename || s.K == KRmdir) {
+			if c.Recurse && (s.K == KMkdir || s.K == KRename && s.N != 1 || s.K == KRmdir) {
 				// recursive mode quantifies over directories created/moved one
 				// level at a time, each followed by delivery of its events
 				if !synced {
@@ -1597,6 +1597,19 @@ func Run(c *Case) (w *World) {
 			}
 			w.Plug()
 			synced = false
+		case s.K == KRRemoveNow:
+			// what is still undelivered for that tree may be dropped
+			root := filepath.Clean(string(s.P))
+			for i, e := range w.pending {
+				if under(e.Name, root) || under(e.From, root) {
+					w.pendOpt[i] = true
+				}
+			}
+			w.Feat["recursive-remove-inside-burst"]++
+			w.RRemove(string(s.P))
+		case s.K == KRAddNow:
+			w.Feat["recursive-add-inside-burst"]++
+			w.RAdd(string(s.P))
 		case s.K == KRemoveNow:
 			w.RemoveNow(string(s.P))
 		case s.K == KAddNow:
